@@ -3,8 +3,3 @@ ENGINES = [
 ]
 _PENDING = "check not built yet in this round (machinery under construction; see DESIGN.md build order) — not a claim that the technique cannot apply"
 NOT_APPLICABLE = [{"property_id": "C%02d" % i, "reason": _PENDING} for i in range(1, 21)]
-TEXT = {
- "C14": {"engine": "E4-enum", "design_ref": "DESIGN.md §5 C14",
-   "text": "Every dependency graph of the stated finite families (all digraphs incl. self-loops on <=4 steps, all 2^20 loop-free edge sets on 5, dangling names at every position, structured families to 40 steps) is run through the real admission code and compared with an independent DFS reference; refused graphs on <=3 steps also through the real agent.Run. Exhaustive inside those families, so any admission bug that has a witness there is found; it is exploration, not proof, for larger graphs.",
-   "note": "Trusts the reference DFS in go/c14/main.go and the scripted executor as an observer of 'something executed'. Step names distinct."},
-}
